@@ -4,7 +4,7 @@ from checks import inputfam
 
 def run(ctx):
     q = ctx.tier == "quick"
-    inputfam.run_input(ctx, "C02", "chunk", 40 if q else 1500, exhaustive=not q)
+    inputfam.run_input(ctx, "C02", "chunk", 40 if q else 120, exhaustive=not q)
     ctx.finish("exploration",
                rule="per registered terminal: token strings (keys of that terminal, Alt-prefixed keys, UTF-8 text, SGR/X11 mouse, "
                     "paste brackets, focus reports, OSC 52 replies with BEL/ST, control bytes, DEL, trailing ESC) and random byte "
